@@ -5,7 +5,7 @@
    parse-twice agreement are decided on the real decoders by the harness, and follow for the
    modelled part because it is a function of the decoded value. *)
 From Verif Require Import Model.Base Model.Node Model.Graph Model.Spdx Model.Cdx Model.Ident
-  Proofs.GraphFacts Proofs.SpdxFacts Proofs.CdxFacts Proofs.IdentFacts.
+  Proofs.GraphFacts Proofs.SpdxFacts Proofs.CdxFacts Proofs.IdentFacts Proofs.DecFacts.
 Open Scope list_scope.
 
 (* CycloneDX: every BOM value (any nesting, repeated or absent references, absent metadata
@@ -26,6 +26,11 @@ Proof.
   intros c cc. exists c, cc. reflexivity.
 Qed.
 Print Assumptions C05_cdx_identifiers_origin.
+
+(* generated identifiers of different traversal positions differ (the traversal counter is positive) *)
+Theorem C05_generated_identifiers_distinct : forall a b, 0 < a -> 0 < b -> auto_id a = auto_id b -> a = b.
+Proof. exact auto_id_inj. Qed.
+Print Assumptions C05_generated_identifiers_distinct.
 
 (* SPDX: identifiers and endpoints are transferred verbatim; the graph is closed whenever the
    input's own references resolve, identifiers are as unique as the input's *)
